@@ -70,6 +70,15 @@ pub fn judge(acc: &mut Acc, text: &str, tree: &fun::syntax::program::Program, wi
 }
 
 const HAND: &[&str] = &[
+    // a literal zero kept apart from the comparison operator by a comment only
+    "def main(x: i64): i64 { if x - 0 // c\n == x { 1 } else { 2 } }",
+    "def main(x: i64): i64 { if x * 0 // c\n < x + 1 { 1 } else { 2 } }",
+    "def main(x: i64): i64 { if x % 10 // c\n >= 0 // d\n + x { 1 } else { 2 } }",
+    "def main(x: i64): i64 { if x == // c\n 0 + x { 1 } else { 2 } }",
+    "def main(x: i64): i64 { if x - 0 // c\n != // d\n 0 - x { 1 } else { 2 } }",
+    "def main(x: i64): i64 { if 0 // c\n <= x { 1 } else { 2 } }",
+    "def main(x: i64): i64 { if x > // c\n 0 { 1 } else { 2 } }",
+    "def main(x: i64): i64 { if (let y: i64 = x; 0) // c\n == x { 1 } else { 2 } }",
     "data U { }\ndef main(): i64 { 0 }",
     "data L[A] { N, C(x: A, xs: L[A]) }\ndef main(): i64 { N.case[i64] { N => 0, C(x, xs) => 1, } }",
     "codata F[A, B] { ap(x: A): B }\ndef main(): i64 { new { ap(x) => x }.ap[i64, i64](3) }",
